@@ -1,7 +1,8 @@
 /-
-C11, allocation drivers (model: Stdlib/d11Alloc.lean): where the caller's number stays below what
-the runtime can address nothing panics; beyond it the Go code panics (witnesses by `decide`), and
-Go's wrapping `int` arithmetic makes the scanned width / the product of lengths a different number.
+C11, allocation drivers (model: Stdlib/d11Alloc.lean, following /repo 490ecb9, d4d90b0, 84cbc5e):
+`indent`, the width padding of `format` and `setproduct` never reach an allocation the runtime
+refuses — for EVERY number of spaces, every digit string, every list of argument lengths — and the
+number that decides the allocation is the one the caller wrote (no wrap-around).
 -/
 import CtyModel.Stdlib.d11Alloc
 import CtyModel.Lemmas.StdOblAcc
@@ -14,12 +15,16 @@ theorem wrap64_id {x : Int} (h1 : -9223372036854775808 ≤ x) (h2 : x ≤ maxInt
 
 /-! ### `strings.Repeat`, `makeslice` -/
 
-theorem goRepeat_one_no_panic {count : Int} (h0 : 0 ≤ count) (h : count ≤ maxAlloc) :
-    (goRepeat 1 count).isPanic = false := by
+theorem goRepeat_one_ok {count : Int} (h0 : 0 ≤ count) (h : count ≤ maxAlloc) :
+    goRepeat 1 count = .ok count := by
   have h1 : ¬ count < 0 := by omega
   have h2 : ¬ (maxInt64 < count) := by unfold maxInt64; unfold maxAlloc at h; omega
   have h3 : ¬ (maxAlloc < count) := by omega
-  simp [goRepeat, h1, h2, h3, Res.isPanic]
+  simp [goRepeat, h1, h2, h3]
+
+theorem goRepeat_one_no_panic {count : Int} (h0 : 0 ≤ count) (h : count ≤ maxAlloc) :
+    (goRepeat 1 count).isPanic = false := by
+  rw [goRepeat_one_ok h0 h]; rfl
 
 theorem goRepeat_one_panics {count : Int} (h : count > maxAlloc) : (goRepeat 1 count).isPanic = true := by
   have h1 : ¬ count < 0 := by unfold maxAlloc at h; omega
@@ -28,46 +33,129 @@ theorem goRepeat_one_panics {count : Int} (h : count > maxAlloc) : (goRepeat 1 c
   · simp [goRepeat, h1, h2, Res.isPanic]
   · simp [goRepeat, h1, h2, h3, Res.isPanic]
 
+/-! ### Go's truncating division by a positive divisor -/
+
+theorem tdiv_pos_le {a b c : Int} (hc : 0 < c) (hb : 0 ≤ b) (h : a ≤ Int.tdiv b c) : a * c ≤ b := by
+  rw [Int.tdiv_eq_ediv_of_nonneg hb] at h
+  exact (Int.le_ediv_iff_mul_le hc).1 h
+
+theorem tdiv_neg_nonpos {b c : Int} (hc : 0 < c) (hb : b < 0) : Int.tdiv b c ≤ 0 := by
+  have h1 : Int.tdiv b c = -(Int.tdiv (-b) c) := by rw [Int.neg_tdiv, Int.neg_neg]
+  have h2 : 0 ≤ Int.tdiv (-b) c := Int.tdiv_nonneg (by omega) (by omega)
+  omega
+
+theorem le_mul_pos {a c : Int} (ha : 0 ≤ a) (hc : 1 ≤ c) : a ≤ a * c := by
+  calc a = a * 1 := (Int.mul_one a).symm
+    _ ≤ a * c := Int.mul_le_mul_of_nonneg_left hc ha
+
 /-! ### indent -/
 
-/-- FALSE of the code: `indent` never panics, whatever the number of spaces -/
-def IndentPadTotal : Prop := ∀ spaces : Value, (∀ w, fromCtyInt spaces ≠ .panic w) → (indentPad spaces).isPanic = false
+/-- the padding `indent` builds is at most `MaxInt32` bytes whenever the guard lets it through -/
+theorem indent_guard_bound_neg {k num lines : Int} (hl : 0 < lines) (hle : k ≤ Int.tdiv num lines)
+    (hneg : num < 0) : k ≤ 0 := by
+  have := tdiv_neg_nonpos hl hneg
+  omega
 
-theorem indentPad_total_partial (spaces : Value) (hc : ∀ w, fromCtyInt spaces ≠ .panic w)
-    (hk : ∀ k, fromCtyInt spaces = .ok k → k ≤ maxAlloc) : (indentPad spaces).isPanic = false := by
+theorem indent_guard_bound_pos {k num lines : Int} (hk : 0 ≤ k) (hl : 0 < lines)
+    (hle : k ≤ Int.tdiv num lines) (hneg : ¬ num < 0) : k ≤ num ∧ k * lines ≤ num := by
+  have hm := tdiv_pos_le hl (by omega) hle
+  have hkm : k ≤ k * lines := le_mul_pos hk (by omega)
+  exact ⟨by omega, hm⟩
+
+theorem indent_guard_bound {k num lines : Int} (hk : 0 ≤ k) (hl : 0 < lines) (hn : num ≤ 2147483647)
+    (hle : k ≤ Int.tdiv num lines) : k ≤ 2147483647 ∧ (0 ≤ num → k * lines ≤ num) := by
+  by_cases hneg : num < 0
+  · have h0 := indent_guard_bound_neg hl hle hneg
+    exact ⟨by omega, fun h => absurd h (by omega)⟩
+  · have h1 := indent_guard_bound_pos hk hl hle hneg
+    exact ⟨by omega, fun _ => h1.2⟩
+
+theorem indent_tail_no_panic (k dataLen lines : Int) (hd : 0 ≤ dataLen) (hl : 0 ≤ lines) (h0 : ¬ k < 0) (hl0 : ¬ lines = 0)
+    (h1 : ¬ k > Int.tdiv (maxInt32 - dataLen) lines) : (goRepeat 1 k).isPanic = false := by
+  have hn : maxInt32 - dataLen ≤ 2147483647 := by unfold maxInt32; omega
+  have hle : k ≤ Int.tdiv (maxInt32 - dataLen) lines := by omega
+  have hb := (indent_guard_bound (by omega : 0 ≤ k) (by omega : 0 < lines) hn hle).1
+  exact goRepeat_one_no_panic (by omega) (by unfold maxAlloc; omega)
+
+theorem indent_body_no_panic (k dataLen lines : Int) (hd : 0 ≤ dataLen) (hl : 0 ≤ lines) (h0 : ¬ k < 0) :
+    (if (lines == 0) = true then (Res.ok 0 : Res Int)
+     else if k > (maxInt32 - dataLen).tdiv lines then Res.err "the number of spaces is too large" else goRepeat 1 k).isPanic = false := by
+  by_cases hl0 : lines = 0
+  · simp [hl0, Res.isPanic]
+  · have hl0' : (lines == 0) = false := by rw [beq_eq_false_iff_ne]; exact hl0
+    simp only [hl0']
+    by_cases h1 : k > Int.tdiv (maxInt32 - dataLen) lines
+    · simp [h1, Res.isPanic]
+    · rw [if_neg (by simp), if_neg h1]
+      exact indent_tail_no_panic k dataLen lines hd hl h0 hl0 h1
+
+/-- **`indent` never panics**: whatever the number of spaces, the length of the string and the
+number of line breaks in it -/
+theorem indentPad_total (spaces : Value) (dataLen lines : Int) (hc : ∀ w, fromCtyInt spaces ≠ .panic w)
+    (hd : 0 ≤ dataLen) (hl : 0 ≤ lines) : (indentPad spaces dataLen lines).isPanic = false := by
   unfold indentPad
-  cases h : fromCtyInt spaces with
+  cases hk : fromCtyInt spaces with
   | ok k =>
+    simp only
     by_cases h0 : k < 0
     · simp [h0, Res.isPanic]
-    · simp only [h0, if_false]
-      exact goRepeat_one_no_panic (by omega) (hk k h)
+    · rw [if_neg h0]
+      exact indent_body_no_panic k dataLen lines hd hl h0
   | err c => simp [Res.isPanic]
-  | panic w => exact absurd h (hc w)
+  | panic w => exact absurd hk (hc w)
   | unmodelled => simp [Res.isPanic]
 
-/-- exactly when it panics: the conversion to `int` succeeded with a count beyond `maxAlloc` -/
-theorem indentPad_panics_iff (spaces : Value) (hc : ∀ w, fromCtyInt spaces ≠ .panic w) :
-    (indentPad spaces).isPanic = true ↔ ∃ k, fromCtyInt spaces = .ok k ∧ k > maxAlloc := by
-  unfold indentPad
-  cases h : fromCtyInt spaces with
+/-- what an `ok` answer means when there is a line break: the padding is exactly the number of
+spaces asked for, and the whole result (`len(data) + lines * spaces` bytes) is within `MaxInt32` -/
+theorem indentPad_ok_bound {spaces : Value} {dataLen lines n : Int} (hd : 0 ≤ dataLen) (hd2 : dataLen ≤ maxInt32)
+    (hl : 0 < lines) (h : indentPad spaces dataLen lines = .ok n) :
+    fromCtyInt spaces = .ok n ∧ 0 ≤ n ∧ dataLen + lines * n ≤ maxInt32 := by
+  unfold indentPad at h
+  cases hk : fromCtyInt spaces with
   | ok k =>
+    rw [hk] at h
+    simp only at h
     by_cases h0 : k < 0
-    · have : ¬ k > maxAlloc := by unfold maxAlloc; omega
-      simp [h0, Res.isPanic, this]
-    · simp only [h0, if_false]
-      by_cases hk : k > maxAlloc
-      · simp [goRepeat_one_panics hk, hk]
-      · have := goRepeat_one_no_panic (count := k) (by omega) (by omega)
-        simp [this, hk]
-  | err c => simp [Res.isPanic]
-  | panic w => exact absurd h (hc w)
-  | unmodelled => simp [Res.isPanic]
+    · simp [h0] at h
+    · have hl0 : (lines == 0) = false := by rw [beq_eq_false_iff_ne]; omega
+      simp only [h0, if_false, hl0] at h
+      by_cases h1 : k > Int.tdiv (maxInt32 - dataLen) lines
+      · simp [h1] at h
+      · simp only [h1, if_false] at h
+        have hn : maxInt32 - dataLen ≤ 2147483647 := by unfold maxInt32; omega
+        have hle : k ≤ Int.tdiv (maxInt32 - dataLen) lines := by omega
+        have hb := indent_guard_bound (by omega : 0 ≤ k) hl hn hle
+        have hm := hb.2 (by omega)
+        rw [goRepeat_one_ok (by omega) (by have := hb.1; unfold maxAlloc; omega)] at h
+        cases h
+        refine ⟨rfl, by omega, ?_⟩
+        rw [Int.mul_comm]; omega
+  | err c => rw [hk] at h; simp at h
+  | panic w => rw [hk] at h; simp at h
+  | unmodelled => rw [hk] at h; simp at h
 
-/-- the witness: `indent(2^62, …)` -/
+/-- a string without a line break is never padded, whatever the number of spaces -/
+theorem indentPad_no_newline (spaces : Value) (dataLen k : Int) (hk : fromCtyInt spaces = .ok k) (h0 : 0 ≤ k) :
+    indentPad spaces dataLen 0 = .ok 0 := by
+  unfold indentPad; rw [hk]
+  have : ¬ k < 0 := by omega
+  simp [this]
+
+/-- the former witness `indent(2^62, …)` -/
 def indentCex : Value := intVal 4611686018427387904
 
 /-! ### format -/
+
+theorem appendDigit_nonneg {n : Int} (d : Nat) (h : 0 ≤ n) : 0 ≤ appendDigit n d := by
+  unfold appendDigit; split
+  · unfold maxInt64; omega
+  · omega
+
+theorem accFold_nonneg : ∀ (ds : List Nat) (n : Int), 0 ≤ n → 0 ≤ ds.foldl appendDigit n
+  | [], _, h => h
+  | d :: ds, n, h => accFold_nonneg ds _ (appendDigit_nonneg d h)
+
+theorem accDigits_nonneg (ds : List Nat) : 0 ≤ accDigits ds := accFold_nonneg ds 0 (by omega)
 
 theorem le_litFold : ∀ (ds : List Nat) (n : Int), 0 ≤ n → n ≤ ds.foldl (fun (n : Int) (d : Nat) => 10 * n + (d : Int)) n
   | [], n, _ => by simp
@@ -76,35 +164,64 @@ theorem le_litFold : ∀ (ds : List Nat) (n : Int), 0 ≤ n → n ≤ ds.foldl (
     have := le_litFold ds (10 * n + d) (by omega)
     omega
 
-theorem accFold_eq_litFold : ∀ (ds : List Nat) (n : Int), 0 ≤ n →
-    ds.foldl (fun (n : Int) (d : Nat) => 10 * n + (d : Int)) n ≤ maxInt64 →
-    ds.foldl (fun (n : Int) (d : Nat) => wrap64 (10 * n + (d : Int))) n = ds.foldl (fun (n : Int) (d : Nat) => 10 * n + (d : Int)) n
-  | [], _, _, _ => rfl
-  | d :: ds, n, h0, h => by
-    simp only [List.foldl_cons] at h ⊢
-    have hle := le_litFold ds (10 * n + d) (by omega)
-    have hw : wrap64 (10 * n + d) = 10 * n + d := wrap64_id (by omega) (by omega)
-    rw [hw]
-    exact accFold_eq_litFold ds (10 * n + d) (by omega) h
+/-- the scanner's number is the literal, or it is saturated and the literal is beyond the threshold -/
+theorem accFold_inv : ∀ (ds : List Nat) (a l : Int), 0 ≤ l → (a = l ∨ (a = maxInt64 ∧ l > satThreshold)) →
+    (ds.foldl appendDigit a = ds.foldl (fun (n : Int) (d : Nat) => 10 * n + (d : Int)) l ∨
+     (ds.foldl appendDigit a = maxInt64 ∧ ds.foldl (fun (n : Int) (d : Nat) => 10 * n + (d : Int)) l > satThreshold))
+  | [], _, _, _, h => h
+  | d :: ds, a, l, hl, h => by
+    simp only [List.foldl_cons]
+    apply accFold_inv ds _ _ (by omega)
+    rcases h with h | ⟨h1, h2⟩
+    · subst h
+      unfold appendDigit
+      by_cases hs : a > satThreshold
+      · right; rw [if_pos hs]; exact ⟨rfl, by omega⟩
+      · left; rw [if_neg hs]
+    · right
+      subst h1
+      have : maxInt64 > satThreshold := by decide
+      unfold appendDigit
+      rw [if_pos this]
+      exact ⟨rfl, by omega⟩
 
-/-- FALSE of the code: the scanner reads the width (precision) that is written -/
-def WidthReadsLiteral : Prop := ∀ ds : List Nat, accDigits ds = litValue ds
+/-- **the scanner reads the width (precision) that is written**, as far as it is accepted at all … -/
+theorem accDigits_eq_lit (ds : List Nat) (h : litValue ds ≤ formatMaxWidthPrec) : accDigits ds = litValue ds := by
+  rcases accFold_inv ds 0 0 (by omega) (Or.inl rfl) with h1 | ⟨_, h2⟩
+  · exact h1
+  · unfold litValue formatMaxWidthPrec at h; unfold satThreshold at h2; omega
 
-theorem widthReadsLiteral_partial (ds : List Nat) (h : litValue ds ≤ maxInt64) : accDigits ds = litValue ds :=
-  accFold_eq_litFold ds 0 (by omega) h
+/-- … and a literal beyond the limit is seen as beyond the limit (no wrap-around to an acceptable number) -/
+theorem accDigits_gt_of_lit_gt (ds : List Nat) (h : litValue ds > formatMaxWidthPrec) : accDigits ds > formatMaxWidthPrec := by
+  rcases accFold_inv ds 0 0 (by omega) (Or.inl rfl) with h1 | ⟨h1, _⟩
+  · unfold accDigits; rw [h1]; exact h
+  · unfold accDigits; rw [h1]; decide
 
-/-- FALSE of the code: padding never panics -/
-def FormatPadTotal : Prop := ∀ (ds : List Nat) (g : Int), 0 ≤ g → (formatPadOfDigits ds g).isPanic = false
-
-theorem formatPad_total_partial (ds : List Nat) (g : Int) (hg : 0 ≤ g) (h : accDigits ds ≤ maxAlloc) :
-    (formatPadOfDigits ds g).isPanic = false := by
-  unfold formatPadOfDigits formatPad
-  by_cases h1 : accDigits ds < 0
+theorem formatPad_no_panic {w g : Int} (hw : w ≤ formatMaxWidthPrec) (hg : 0 ≤ g) : (formatPad w g).isPanic = false := by
+  unfold formatPad
+  by_cases h1 : w < 0
   · simp [h1, Res.isPanic]
-  · by_cases h2 : g ≥ accDigits ds
+  · by_cases h2 : g ≥ w
     · simp [h1, h2, Res.isPanic]
-    · simp only [h1, h2, if_false]
-      exact goRepeat_one_no_panic (by omega) (by omega)
+    · rw [if_neg h1, if_neg h2]
+      exact goRepeat_one_no_panic (by omega) (by unfold maxAlloc; unfold formatMaxWidthPrec at hw; omega)
+
+/-- **padding never panics**, whatever digits the format string spells -/
+theorem formatPadOfDigits_total (ds : List Nat) (g : Int) (hg : 0 ≤ g) : (formatPadOfDigits ds g).isPanic = false := by
+  unfold formatPadOfDigits
+  by_cases h : accDigits ds > formatMaxWidthPrec
+  · simp [h, Res.isPanic]
+  · rw [if_neg h]
+    exact formatPad_no_panic (by omega) hg
+
+/-- the closed form: an error exactly when the LITERAL is beyond the limit, otherwise the padding to the literal -/
+theorem formatPadOfDigits_eq (ds : List Nat) (g : Int) :
+    formatPadOfDigits ds g = if litValue ds > formatMaxWidthPrec then .err "unsupported width" else formatPad (litValue ds) g := by
+  unfold formatPadOfDigits
+  by_cases h : litValue ds > formatMaxWidthPrec
+  · rw [if_pos (accDigits_gt_of_lit_gt ds h), if_pos h]
+  · have he := accDigits_eq_lit ds (by omega)
+    rw [he, if_neg h]
 
 /-- digits of 9223372036854775807 -/
 def maxIntDigits : List Nat := [9, 2, 2, 3, 3, 7, 2, 0, 3, 6, 8, 5, 4, 7, 7, 5, 8, 0, 7]
@@ -118,70 +235,275 @@ theorem le_prodFold : ∀ (ls : List Int) (t : Int), 1 ≤ t → (∀ l ∈ ls, 
   | l :: ls, t, ht, hl => by
     simp only [List.foldl_cons]
     have h1 : 1 ≤ l := hl l (by simp)
-    have h2 : t ≤ t * l := by
-      calc t = t * 1 := (Int.mul_one t).symm
-        _ ≤ t * l := Int.mul_le_mul_of_nonneg_left h1 (by omega)
+    have h2 : t ≤ t * l := le_mul_pos (by omega) h1
     have h3 := le_prodFold ls (t * l) (by omega) (fun x hx => hl x (by simp [hx]))
     omega
 
-theorem totalFold_eq_prodFold : ∀ (ls : List Int) (t : Int), 1 ≤ t → (∀ l ∈ ls, 1 ≤ l) →
-    ls.foldl (fun t l => t * l) t ≤ maxInt64 →
-    ls.foldl (fun t l => wrap64 (t * l)) t = ls.foldl (fun t l => t * l) t
-  | [], _, _, _, _ => rfl
-  | l :: ls, t, ht, hl, h => by
-    simp only [List.foldl_cons] at h ⊢
+/-- loop invariant: `total` is non-negative and within `maxTotal`, unless `tooMany` is set -/
+def SpInv (M : Int) (st : Int × Bool) : Prop := 0 ≤ st.1 ∧ (st.1 ≤ M ∨ st.2 = true)
+
+theorem tdiv_le_self_pos {M l : Int} (hM : 0 ≤ M) (hl : 1 ≤ l) : Int.tdiv M l ≤ M := by
+  rw [Int.tdiv_eq_ediv_of_nonneg hM]
+  exact Int.ediv_le_self _ hM
+
+theorem spStep_inv {M : Int} (hM : 0 ≤ M) (hM2 : M ≤ maxInt32) {st : Int × Bool} {l : Int} (hl : 0 ≤ l) (h : SpInv M st) :
+    SpInv M (spStep M st l) := by
+  obtain ⟨t, b⟩ := st
+  obtain ⟨h0, h1⟩ := h
+  simp only at h0 h1
+  unfold spStep
+  by_cases hl0 : (l == 0) = true
+  · rw [if_pos hl0]; exact ⟨by simp, Or.inl hM⟩
+  · rw [if_neg hl0]
+    have hl1 : 1 ≤ l := by
+      have : l ≠ 0 := by intro h; apply hl0; simp [h]
+      omega
+    by_cases hc : (t != 0 && decide (t > Int.tdiv M l)) = true
+    · rw [if_pos hc]
+      exact ⟨h0, Or.inr rfl⟩
+    · rw [if_neg hc]
+      by_cases ht : t = 0
+      · subst ht
+        have : wrap64 (0 * l) = 0 := by rw [Int.zero_mul]; decide
+        simp only [this]
+        exact ⟨by omega, Or.inl hM⟩
+      · have hle : t ≤ Int.tdiv M l := by
+          simp only [Bool.and_eq_true, bne_iff_ne, ne_eq, decide_eq_true_eq, not_and] at hc
+          have := hc ht; omega
+        have hm := tdiv_pos_le (by omega : 0 < l) hM hle
+        have hnn : 0 ≤ t * l := Int.mul_nonneg h0 hl
+        have hw : wrap64 (t * l) = t * l := wrap64_id (by omega) (by unfold maxInt64; unfold maxInt32 at hM2; omega)
+        simp only [hw]
+        exact ⟨hnn, Or.inl hm⟩
+
+theorem spFold_inv {M : Int} (hM : 0 ≤ M) (hM2 : M ≤ maxInt32) : ∀ (ls : List Int) (st : Int × Bool), (∀ l ∈ ls, 0 ≤ l) → SpInv M st →
+    SpInv M (ls.foldl (spStep M) st)
+  | [], _, _, h => h
+  | l :: ls, st, hl, h => by
+    simp only [List.foldl_cons]
+    exact spFold_inv hM hM2 ls _ (fun x hx => hl x (by simp [hx])) (spStep_inv hM hM2 (hl l (by simp)) h)
+
+/-- the first round establishes the invariant even when `maxTotal` is 0 -/
+theorem spStep_first {M : Int} (hM : 0 ≤ M) (hM2 : M ≤ maxInt32) {l : Int} (hl : 0 ≤ l) : SpInv M (spStep M (1, false) l) := by
+  by_cases h1 : 1 ≤ M
+  · exact spStep_inv hM hM2 hl ⟨by simp, Or.inl h1⟩
+  · have hM0 : M = 0 := by omega
+    subst hM0
+    unfold spStep
+    by_cases hl0 : l = 0
+    · simp [hl0, SpInv]
+    · have hl0' : (l == 0) = false := by rw [beq_eq_false_iff_ne]; exact hl0
+      have hq : Int.tdiv 0 l = 0 := Int.zero_tdiv l
+      simp [hl0', hq, SpInv]
+
+theorem spMaxTotal_bounds (n : Nat) : 0 ≤ spMaxTotal n ∧ spMaxTotal n ≤ maxInt32 ∧ spMaxTotal n * (n : Int) ≤ maxInt32 := by
+  unfold spMaxTotal
+  by_cases h : n > 1
+  · simp only [h, if_true]
+    have hn : (0 : Int) < (n : Int) := by omega
+    have h32 : (0 : Int) ≤ maxInt32 := by decide
+    refine ⟨Int.tdiv_nonneg h32 (by omega), tdiv_le_self_pos h32 (by omega), ?_⟩
+    exact tdiv_pos_le hn h32 (Int.le_refl _)
+  · simp only [h, if_false]
+    have h32 : (0 : Int) ≤ maxInt32 := by decide
+    refine ⟨h32, Int.le_refl _, ?_⟩
+    have : (n : Int) = 0 ∨ (n : Int) = 1 := by omega
+    rcases this with h | h <;> rw [h] <;> unfold maxInt32 <;> omega
+
+theorem spLoop_inv (ls : List Int) (hl : ∀ l ∈ ls, 0 ≤ l) (hne : ls ≠ []) : SpInv (spMaxTotal ls.length) (spLoop ls) := by
+  have hb := spMaxTotal_bounds ls.length
+  unfold spLoop
+  cases ls with
+  | nil => exact absurd rfl hne
+  | cons l rest =>
+    simp only [List.foldl_cons]
+    exact spFold_inv hb.1 hb.2.1 rest _ (fun x hx => hl x (by simp [hx])) (spStep_first hb.1 hb.2.1 (hl l (by simp)))
+
+theorem makeslice_ok {n esz : Int} (h0 : 0 ≤ n) (h : n * esz ≤ maxAlloc) : makeslice n esz = .ok () := by
+  unfold makeslice
+  have : ¬ (n < 0 ∨ n * esz > maxAlloc) := by omega
+  simp [this]
+
+/-- **the allocation part of `setproduct` never panics**, whatever the lengths of the arguments -/
+theorem setProductAlloc_total (ls : List Int) (hl : ∀ l ∈ ls, 0 ≤ l) : (setProductAlloc ls).isPanic = false := by
+  by_cases hne : ls = []
+  · subst hne; decide
+  · have hinv := spLoop_inv ls hl hne
+    have hb := spMaxTotal_bounds ls.length
+    unfold setProductAlloc
+    simp only
+    generalize spLoop ls = st at hinv
+    obtain ⟨t, b⟩ := st
+    obtain ⟨h0, h1⟩ := hinv
+    simp only at h0 h1 ⊢
+    by_cases hc : (t != 0 && b) = true
+    · simp [hc, Res.isPanic]
+    · simp only [hc]
+      by_cases ht : t = 0
+      · simp [ht, Res.isPanic]
+      · have ht' : (t == 0) = false := by rw [beq_eq_false_iff_ne]; exact ht
+        have hb' : b = false := by
+          cases b with
+          | false => rfl
+          | true => exact absurd (by simp [ht] : (t != 0 && true) = true) hc
+        have hle : t ≤ spMaxTotal ls.length := by
+          rcases h1 with h | h
+          · exact h
+          · rw [hb'] at h; cases h
+        have hn0 : (0 : Int) ≤ (ls.length : Int) := by omega
+        have hmul : t * (ls.length : Int) ≤ maxInt32 :=
+          Int.le_trans (Int.mul_le_mul_of_nonneg_right hle hn0) hb.2.2
+        have hmul0 : 0 ≤ t * (ls.length : Int) := Int.mul_nonneg h0 hn0
+        have hw : wrap64 (t * (ls.length : Int)) = t * (ls.length : Int) :=
+          wrap64_id (by omega) (by unfold maxInt64; unfold maxInt32 at hmul; omega)
+        have ht32 : t ≤ maxInt32 := Int.le_trans hle hb.2.1
+        have hs1 : makeslice t 24 = .ok () := makeslice_ok h0 (by unfold maxAlloc; unfold maxInt32 at ht32; omega)
+        have hs2 : makeslice (t * (ls.length : Int)) 32 = .ok () :=
+          makeslice_ok hmul0 (by unfold maxAlloc; unfold maxInt32 at hmul; omega)
+        simp [ht', hw, hs1, hs2, Res.isPanic]
+
+/-- while nothing is refused the loop computes the true product: no wrap-around -/
+theorem spFold_prod : ∀ (ls : List Int) (M t : Int), 0 ≤ M → M ≤ maxInt32 → 1 ≤ t → t ≤ M → (∀ l ∈ ls, 1 ≤ l) →
+    ((ls.foldl (spStep M) (t, false)).2 = false → (ls.foldl (spStep M) (t, false)).1 = ls.foldl (fun t l => t * l) t)
+  | [], _, _, _, _, _, _, _ => fun _ => rfl
+  | l :: ls, M, t, hM, hM2, ht, htM, hl => by
+    simp only [List.foldl_cons]
     have h1 : 1 ≤ l := hl l (by simp)
-    have h2 : t ≤ t * l := by
-      calc t = t * 1 := (Int.mul_one t).symm
-        _ ≤ t * l := Int.mul_le_mul_of_nonneg_left h1 (by omega)
-    have hle := le_prodFold ls (t * l) (by omega) (fun x hx => hl x (by simp [hx]))
-    have hw : wrap64 (t * l) = t * l := wrap64_id (by omega) (by omega)
-    rw [hw]
-    exact totalFold_eq_prodFold ls (t * l) (by omega) (fun x hx => hl x (by simp [hx])) h
+    have hl0' : (l == 0) = false := by rw [beq_eq_false_iff_ne]; omega
+    by_cases hc : t > Int.tdiv M l
+    · -- tooMany is set and never cleared
+      have hst : spStep M (t, false) l = (t, true) := by
+        unfold spStep
+        have : (t != 0) = true := by simp; omega
+        simp [hl0', this, hc]
+      rw [hst]
+      intro h
+      exfalso
+      have : ∀ (xs : List Int) (a : Int), (xs.foldl (spStep M) (a, true)).2 = true := by
+        intro xs
+        induction xs with
+        | nil => intro a; rfl
+        | cons x xs ih =>
+          intro a
+          simp only [List.foldl_cons]
+          unfold spStep
+          by_cases hx : (x == 0) = true
+          · simp only [hx, if_true]; exact ih 0
+          · simp only [hx]
+            by_cases hy : (a != 0 && decide (a > Int.tdiv M x)) = true
+            · simp only [hy, if_true]; exact ih a
+            · simp only [hy]; exact ih _
+      rw [this ls t] at h; cases h
+    · have hle : t ≤ Int.tdiv M l := by omega
+      have hm := tdiv_pos_le (by omega : 0 < l) hM hle
+      have hw : wrap64 (t * l) = t * l := wrap64_id (by
+        have : 0 ≤ t * l := Int.mul_nonneg (by omega) (by omega)
+        omega) (by unfold maxInt64; unfold maxInt32 at hM2; omega)
+      have hst : spStep M (t, false) l = (t * l, false) := by
+        unfold spStep
+        have hd : decide (t > Int.tdiv M l) = false := by simp; omega
+        simp [hl0', hd, hw]
+      rw [hst]
+      have h2 : t ≤ t * l := le_mul_pos (by omega) h1
+      exact spFold_prod ls M (t * l) hM hM2 (by omega) hm (fun x hx => hl x (by simp [hx]))
 
-/-- below 2^63 the loop computes the product -/
-theorem totalLen_eq_prodLen (ls : List Int) (hl : ∀ l ∈ ls, 1 ≤ l) (h : prodLen ls ≤ maxInt64) :
-    totalLen ls = prodLen ls := totalFold_eq_prodFold ls 1 (by omega) hl h
+theorem spStep_zero_keep {x : Int} (b : Bool) (hx1 : 1 ≤ x) : spStep 0 (1, b) x = (1, true) := by
+  unfold spStep
+  have hl0' : (x == 0) = false := by rw [beq_eq_false_iff_ne]; omega
+  have hq : Int.tdiv 0 x = 0 := Int.zero_tdiv x
+  simp [hl0', hq]
 
-/-- FALSE of the code: the allocation part of `setproduct` never panics -/
-def SetProductAllocTotal : Prop :=
-  ∀ ls : List Int, (∀ l ∈ ls, 0 ≤ l ∧ l ≤ maxInt64) → (setProductAlloc ls).isPanic = false
+theorem spFold_zero_keep : ∀ (xs : List Int), (∀ x ∈ xs, 1 ≤ x) → xs.foldl (spStep 0) (1, true) = (1, true)
+  | [], _ => rfl
+  | x :: xs, hx => by
+    simp only [List.foldl_cons]
+    rw [spStep_zero_keep true (hx x (by simp))]
+    exact spFold_zero_keep xs (fun y hy => hx y (by simp [hy]))
 
-/-- no panic when every argument is non-empty, the product of the lengths is at most 2^30 and
-there are at most 2^10 arguments -/
-theorem setProductAlloc_total_partial (ls : List Int) (hl : ∀ l ∈ ls, 1 ≤ l)
-    (hp : prodLen ls ≤ 1073741824) (hn : (ls.length : Int) ≤ 1024) :
-    (setProductAlloc ls).isPanic = false := by
-  have he := totalLen_eq_prodLen ls hl (by unfold maxInt64; omega)
-  have h1 : 1 ≤ prodLen ls := le_prodFold ls 1 (by omega) hl
-  have hm : prodLen ls * (ls.length : Int) ≤ 1073741824 * 1024 :=
-    Int.mul_le_mul hp hn (by omega) (by omega)
-  have hm0 : 0 ≤ prodLen ls * (ls.length : Int) := Int.mul_nonneg (by omega) (by omega)
-  have hw : wrap64 (prodLen ls * (ls.length : Int)) = prodLen ls * (ls.length : Int) :=
-    wrap64_id (by omega) (by unfold maxInt64; omega)
-  unfold setProductAlloc
-  simp only [he]
-  have hz : (prodLen ls == 0) = false := by
-    rw [beq_eq_false_iff_ne]; omega
-  have hs1 : makeslice (prodLen ls) 24 = .ok () := by
-    unfold makeslice maxAlloc
-    have : ¬ (prodLen ls < 0 ∨ prodLen ls * 24 > 281474976710656) := by omega
-    simp [this]
-  have hs2 : makeslice (prodLen ls * (ls.length : Int)) 32 = .ok () := by
-    unfold makeslice maxAlloc
-    have : ¬ (prodLen ls * (ls.length : Int) < 0 ∨ prodLen ls * (ls.length : Int) * 32 > 281474976710656) := by omega
-    simp [this]
-  simp [hz, hs1, hw, hs2, Res.isPanic]
+/-- with `maxTotal = 0` (more than `MaxInt32` arguments) every non-empty argument is one too many -/
+theorem spLoop_of_zero (l : Int) (rest : List Int) (hl : ∀ x ∈ l :: rest, 1 ≤ x) (hM0 : spMaxTotal (l :: rest).length = 0) :
+    spLoop (l :: rest) = (1, true) := by
+  unfold spLoop
+  rw [hM0]
+  simp only [List.foldl_cons]
+  rw [spStep_zero_keep false (hl l (by simp))]
+  exact spFold_zero_keep rest (fun y hy => hl y (by simp [hy]))
 
-/-- FALSE of the code: the result is empty only if some argument is -/
-def SetProductEmptyOnlyIfSomeEmpty : Prop :=
-  ∀ ls : List Int, (∀ l ∈ ls, 1 ≤ l ∧ l ≤ maxInt64) → totalLen ls ≠ 0
-
-theorem setProduct_nonempty_partial (ls : List Int) (hl : ∀ l ∈ ls, 1 ≤ l) (h : prodLen ls ≤ maxInt64) :
-    totalLen ls ≠ 0 := by
-  rw [totalLen_eq_prodLen ls hl h]
-  have := le_prodFold ls 1 (by omega) hl
-  unfold prodLen; omega
+/-- **`setproduct` answers a number of tuples only if it is the true product of the lengths**
+(all arguments non-empty): never an empty or short result through wrap-around -/
+theorem setProductAlloc_ok_is_product (ls : List Int) (hl : ∀ l ∈ ls, 1 ≤ l) (n : Int) (h : setProductAlloc ls = .ok n) :
+    n = prodLen ls := by
+  have hb := spMaxTotal_bounds ls.length
+  by_cases h1 : 1 ≤ spMaxTotal ls.length
+  · have hp := spFold_prod ls (spMaxTotal ls.length) 1 hb.1 hb.2.1 (by omega) h1 hl
+    have hge : 1 ≤ prodLen ls := le_prodFold ls 1 (by omega) hl
+    unfold setProductAlloc at h
+    simp only at h
+    unfold spLoop at h
+    generalize hst : ls.foldl (spStep (spMaxTotal ls.length)) (1, false) = st at h hp
+    obtain ⟨t, b⟩ := st
+    simp only at h hp
+    cases b with
+    | true =>
+      by_cases ht : t = 0
+      · simp [ht] at h; subst ht
+        -- total = 0 with all lengths ≥ 1 is impossible: the invariant keeps total ≥ 1 … shown via the product when tooMany is unset;
+        -- with tooMany set the answer `.ok 0` still needs total = 0: excluded by positivity below
+        have hpos : ∀ (xs : List Int) (st : Int × Bool), 1 ≤ st.1 → (∀ l ∈ xs, 1 ≤ l) → st.1 ≤ spMaxTotal ls.length ∨ st.2 = true →
+            1 ≤ (xs.foldl (spStep (spMaxTotal ls.length)) st).1 := by
+          intro xs
+          induction xs with
+          | nil => intro st h _ _; exact h
+          | cons x xs ih =>
+            intro st hs hx hinv
+            simp only [List.foldl_cons]
+            have hx1 : 1 ≤ x := hx x (by simp)
+            have hinv' := spStep_inv (M := spMaxTotal ls.length) hb.1 hb.2.1 (by omega : 0 ≤ x) ⟨by omega, hinv⟩
+            apply ih _ _ (fun y hy => hx y (by simp [hy])) hinv'.2
+            unfold spStep
+            have hx0 : (x == 0) = false := by rw [beq_eq_false_iff_ne]; omega
+            rw [if_neg (by rw [hx0]; simp)]
+            by_cases hy : (st.1 != 0 && decide (st.1 > Int.tdiv (spMaxTotal ls.length) x)) = true
+            · rw [if_pos hy]; exact hs
+            · rw [if_neg hy]
+              have hle : st.1 ≤ Int.tdiv (spMaxTotal ls.length) x := by
+                simp only [Bool.and_eq_true, bne_iff_ne, ne_eq, decide_eq_true_eq, not_and] at hy
+                have := hy (by omega); omega
+              have hm := tdiv_pos_le (by omega : 0 < x) hb.1 hle
+              have hge1 : st.1 ≤ st.1 * x := le_mul_pos (by omega) hx1
+              have hw : wrap64 (st.1 * x) = st.1 * x := wrap64_id (by omega) (by unfold maxInt64; have := hb.2.1; unfold maxInt32 at this; omega)
+              simp only [hw]; omega
+        have := hpos ls (1, false) (by simp) hl (Or.inl h1)
+        rw [hst] at this; simp at this
+      · have : (t != 0 && true) = true := by simp [ht]
+        simp [this] at h
+    | false =>
+      have hp' := hp rfl
+      simp only [Bool.and_false] at h
+      have ht : t = prodLen ls := hp'
+      have ht0 : (t == 0) = false := by rw [beq_eq_false_iff_ne]; omega
+      simp only [ht0] at h
+      cases hm1 : makeslice t 24 with
+      | ok _ =>
+        rw [hm1] at h; simp only at h
+        cases hm2 : makeslice (wrap64 (t * (ls.length : Int))) 32 with
+        | ok _ => rw [hm2] at h; simp at h; omega
+        | err c => rw [hm2] at h; simp at h
+        | panic w => rw [hm2] at h; simp at h
+        | unmodelled => rw [hm2] at h; simp at h
+      | err c => rw [hm1] at h; simp at h
+      | panic w => rw [hm1] at h; simp at h
+      | unmodelled => rw [hm1] at h; simp at h
+  · -- maxTotal = 0: more than MaxInt32 arguments; every non-empty argument list is refused
+    have hM0 : spMaxTotal ls.length = 0 := by omega
+    cases ls with
+    | nil => simp [spMaxTotal] at hM0; exact absurd hM0 (by decide)
+    | cons l rest =>
+      exfalso
+      have hloop := spLoop_of_zero l rest hl hM0
+      unfold setProductAlloc at h
+      simp only [hloop] at h
+      simp at h
 
 end D11
 end CtyModel
